@@ -86,6 +86,12 @@ func (m MetavarMatcher) Match(got reflect.Value, d data.Data, r Region) (data.Da
 		return d, false
 	}
 
+	// A metavariable stands for some code: it cannot match an optional node
+	// that is absent, like the label of a plain "break".
+	if got.Kind() == reflect.Ptr && got.IsNil() {
+		return d, false
+	}
+
 	key := metavarKey(m.Name)
 
 	var md metavarData
